@@ -20,7 +20,7 @@ PROP = "C05"
 PROFILE = {"add_formula_column": 10, "modify_formula": 6, "summary": 4, "update_summary": 1.5, "add_ref_column": 4,
            "reverse_column": 1, "update_record": 18, "bulk_update": 8, "remove_record": 8, "bulk_remove": 4,
            "replace_data": 2, "rename_column": 4, "modify_type": 4, "to_formula": 2, "to_data": 1,
-           "undo_earlier": 3, "malformed": 2, "trigger_column": 0, "trigger_config": 0}
+           "undo_earlier": 3, "malformed": 2, "trigger_column": 0, "trigger_config": 0, "unhashable_key": 4}
 CFG = {"oracles": (), "n_bundles": 14, "profile": PROFILE, "hook": "gx.props.c05.install", "tie": False}
 
 
